@@ -279,8 +279,8 @@ def cases(tier, seed):
             add(f"segment_{mode}_{dim}d", mk_segment(dim, mode), tiers=Q)
     add("triangle_2d", case_triangle, tiers=Q)
     add("triangle_3d", case_triangle3d, tiers=Q)
-    npoly = 48 if tier == "quick" else 600
-    polys = lattice_polygons(seed, npoly, sizes=(3, 4, 4, 5), B=2 if tier == "quick" else 3)
+    npoly = 48 if tier == "quick" else 200
+    polys = lattice_polygons(seed, npoly, sizes=(3, 4, 4, 5), B=2)
     per = 4
     for i in range(0, len(polys), per):
         add(f"polygons_{i:03d}", mk_polygons(polys[i:i + per]), tiers=Q, max_paths=400)
